@@ -282,19 +282,13 @@ Lemma thisObject_total : forall k, public_kind k = true ->
   (k = KUndefined \/ k = KNull) /\ thisObject k = type_error \/ exists c, thisObject k = PObj c.
 Proof. destruct k; cbn; intro H; try discriminate; eauto. Qed.
 
-Lemma charAt_prelude_refuted :
-  exists k, public_kind k = true /\ charAt_prelude_spec k = POk /\ charAt_prelude k = PRaise (Raw BRuntimeStr).
-Proof. exists KNumber. repeat split. Qed.
+(* since 8a02cb3 the prelude of charAt/charCodeAt is the ES5 one on every value a built-in can receive *)
+Lemma charAt_prelude_is_spec : forall k, public_kind k = true -> charAt_prelude k = charAt_prelude_spec k.
+Proof. destruct k; cbn; intro H; try discriminate; reflexivity. Qed.
 
-(* exactly the String objects (and the rejected undefined/null) survive charAt's prelude *)
-Lemma charAt_prelude_crashes_iff : forall k, public_kind k = true ->
-  (charAt_prelude k = PRaise (Raw BRuntimeStr) <->
-   k <> KUndefined /\ k <> KNull /\ k <> KObject cString).
-Proof.
-  intros k Hk. destruct k as [| | | | |c| | |]; cbn in Hk; try discriminate; cbn;
-    try (split; [intro H; discriminate | intros (A & B & C); congruence]);
-    try (split; [intros _; repeat split; discriminate | reflexivity]).
-  unfold charAt_prelude. cbn. destruct (Z.eqb_spec c cString) as [->|Hc].
-  - split; [discriminate|]. intros (_ & _ & C). congruence.
-  - split; [|reflexivity]. intros _. repeat split; try discriminate. congruence.
-Qed.
+Lemma charAt_prelude_js : forall k, public_kind k = true -> prelude_js (charAt_prelude k) = true.
+Proof. intros k H. unfold charAt_prelude. apply checkObjectCoercible_js. exact H. Qed.
+
+Lemma charAt_prelude_total : forall k, public_kind k = true ->
+  charAt_prelude k = charAt_prelude_spec k /\ prelude_js (charAt_prelude k) = true.
+Proof. intros k H. split; [exact (charAt_prelude_is_spec k H) | exact (charAt_prelude_js k H)]. Qed.
